@@ -25,6 +25,12 @@ CHECKS = {
  "C12": dict(level="proof", ref="7/C12", technique="contract-based deductive verification: must_be_refined <=> refine changes the allocation per arbitrary cell (QUANT/FLATMAP shapes checked on the AST), exact selection and equal-halving shape via the _split_allocation recursion contract, griddify alignment on lattice templates",
    text="For an arbitrary cell (0-3 symbolic ratios, symbolic depth, fixed or not): must_be_refined(t) holds iff refine(t) is not the identity, and then the cell is really cut (no livelock state); refine splits exactly the non-empty non-fixed cells with no ratio above t into 2^levels equal cells by halving the longer side (symbolic levels) with depth raised; uniform refinement brings every refinable cell to the former maximum depth; griddify leaves no refinable cell crossed by a boundary line (1% slivers excepted) on <= 3-cell lattice templates.",
    note=BASE + "; termination is decided as absence of the demanded-but-identity state, not as progress of the optimiser loop; griddify bounded to <= 3 cells"),
+ "C11": dict(level="proof", ref="7/C11", technique="contract-based deductive verification: inductive step lemmas of split_rectangles on the real split()/aspect_ratio (NRA), split_rectangles / Die.split_refinable_regions / initial_grid verified for all values on bounded structures, operation sequences",
+   text="Step lemmas for an arbitrary rectangle: a half has ratio max(rho/2, 2/rho), the ratio-driven phase strictly decreases the ratio and reaches the limit, compliant rectangles keep compliant halves when rho >= 2/limit. split_rectangles, Die.split_refinable_regions, initial_grid and floorplanning_rectangles: >= n regions, each inside the region it was cut from with its tag, pairwise disjoint, exactly covering each original, ratio <= limit, blockages/fixed untouched - for all coordinates/limits on bounded structures (1-2 regions, n <= 4, at most two ratio-driven halvings; grids <= 3x3) and for sequences of operations.",
+   note=BASE + "; the unbounded loop of split_rectangles is covered by the step lemmas plus bounded unrollings (no mechanical induction over the worklist); structure bounds as stated"),
+ "C01": dict(level="proof", enum=True, ref="7/C01", technique="contract-based deductive verification of the die self-check (accepted <=> tiling, ASSERT-ALL) and of the constructor against that contract; input validation at tree level; bounded enumeration (real YAML text, real constructor) for 'valid => accepted and tiled'",
+   text="Proved for all values: Die._check_rectangles returns normally iff the reported rectangles lie in the die (within its epsilon), overlap pairwise by at most the area tolerance and sum to the die area; the constructor runs that check once, last, on exactly the lists it reports, and reports blockages/specialised regions unchanged in order with their tags and the netlist's fixed rectangles; malformed descriptions are rejected. That a VALID description is never rejected and that the greedy ground cover is a tiling is covered by a BOUNDED leg: every layout of <= 2 (sampled 3) lattice regions on a 5x5 lattice at 5 scalings incl. 0.001 and 1/3.",
+   note=BASE + "; completeness of the Hanan-grid + greedy largest-rectangle cover is only bounded (lattice layouts); ruamel.yaml trusted in the bounded leg; the self-check contract is proved for <= 3 rectangles and lifted by the assert-only loop shape"),
 }
 
 PENDING = {}
